@@ -152,7 +152,10 @@ class Engine(EngineBase):
             elif k == "file_del":
                 ops.append([k, h, rng.choice(FILES)])
             elif k == "sp_set":
-                ops.append([k, h, rng.choice(KEYS), rng.choice(VALS)])
+                # now and then a value that equals a pool value in Python but not as JSON (1 / True / 1.0):
+                # set in place, that is a different state point and the job must move
+                v = rng.choice(VALS) if rng.random() < 0.9 else rng.choice([True, False, 1.0, 0.0, 2.0])
+                ops.append([k, h, rng.choice(KEYS), v])
             elif k == "sp_del":
                 ops.append([k, h, rng.choice(KEYS + ["n", "l"])])
             elif k == "sp_nested":
